@@ -5929,10 +5929,14 @@ class SQLCompiler(Compiled):
             def apply_placeholders(keys, formatted):
                 for key in keys:
                     key = escaped_bind_names.get(key, key)
-                    formatted = formatted.replace(
-                        self.bindtemplate % {"name": key},
-                        self.bindtemplate
-                        % {"name": f"{key}__EXECMANY_INDEX__"},
+                    repl = self.bindtemplate % {
+                        "name": f"{key}__EXECMANY_INDEX__"
+                    }
+                    formatted = re.sub(
+                        re.escape(self.bindtemplate % {"name": key})
+                        + r"(?![A-Za-z0-9_])",
+                        lambda m: repl,
+                        formatted,
                     )
                 return formatted
 
